@@ -13,8 +13,9 @@ LEVEL_TEXT = ("AuthFlow.tla models the calls protocol handlers make into the pat
               "against a real core.Core whose path manager's authManager is wrapped by a recorder; TLC evaluates the statement on "
               "the recorded Authenticate calls, reloads and the attachment read from the path manager's API; 'admitted' is C01's "
               "statement formula over the configured users")
-LEVEL_NOTE = ("protocols bound to real clients: RTSP, RTMP, SRT (publish and read), HLS (read, client IP through the trusted proxy); "
-              "WebRTC and MoQ flows are covered by the model only; reload between authorization and attachment is "
+LEVEL_NOTE = ("routes: direct path-manager calls (FindPathConf, AddPublisher with ConfToCompare), real clients for RTSP, RTMP, SRT (publish and read), HLS (read, client IP through the trusted proxy); "
+              "WebRTC and MoQ flows are covered by the model only; reload between authorization and attachment (none / another entry / non-hot field / only a hot-reloadable "
+              "field of the same entry / name re-homed to a new exact entry; effect measured at the path manager) is "
               "client-driven (RTSP: ANNOUNCE..RECORD, RTMP / SRT: accepted publish request..first tracks); one fresh path name per scenario")
 TECHNIQUE = "TLA+ model (TLC): exhaustive bounded MC + generated scenarios replayed on a real Core + trace validation"
 
@@ -103,7 +104,7 @@ def run(ctx):
             ctx.sample({k: x[k] for k in ("proto", "action", "name", "cred", "ip", "reload", "events", "attached")})
             break
     for x in recs:
-        if x["reload"] == "change" and not x["attached"] and any(e["op"] == "auth" and e["ok"] for e in x["events"]):
+        if x["reload"] in ("hot", "rehome") and not x["attached"] and any(e["op"] == "auth" and e["ok"] for e in x["events"]):
             ctx.sample({k: x[k] for k in ("proto", "action", "name", "cred", "ip", "reload", "events", "attached", "note")})
             break
     ctx.assume("'admitted' is the statement formula of C01 (AuthInternal.tla: EntryF, GrantF) over the users of AuthFlow.tla")
